@@ -25,6 +25,8 @@ func init() {
 }
 
 func runC11(c *Ctx) {
+	c.Rule("C11.O11", "frozen lockset: the listener state is only read and written under the listener mutex", 4)
+	defer runLockTables(c, "C11", nil)
 	c.Assumptions = append(c.Assumptions, "utils.GoWithRecover runs the given function on a new goroutine once", "the operating system delivers the listener file descriptors passed over the transfer socket intact")
 	c.Rule("C11.O1", "listener.Shutdown: stop accepting (close or stopAccept) before the drain callback; no close on the upgrade branch", 4)
 	c.Rule("C11.O2", "OnShutdown notifies connections then waits; the wait is bounded and re-reads the active-stream gauge", 5)
